@@ -260,7 +260,7 @@ impl Scenario for C19 {
     }
 
     fn generate(rng: &mut Rng, _tier: Tier, _k: u64) -> Case {
-        let nh = rng.below(4);
+        let nh = if rng.chance(1, 12) { 4 + rng.below(40) } else { rng.below(4) };
         let np = if rng.chance(1, 8) { 0 } else { rng.below(7) };
         let ns = rng.below(5);
         let headers = (0..nh).map(|_| line(rng, 1)).collect();
@@ -296,6 +296,9 @@ impl Scenario for C19 {
         } else {
             unsigned.push(format!("{BEGIN_MSG}{deco}\nHash: SHA256\n\nx\n{BEGIN_SIG}\n{END_SIG}\n"));
         }
+        // unsigned text with CR LF line ends comes back unchanged too (the first line is not the marker)
+        unsigned.push("Origin: Debian\r\nLabel: Debian\r\n\r\nx\r\n".to_string());
+        unsigned.push(format!("x\r\n{BEGIN_MSG}\r\n\r\ny\r\n"));
         let f = text::DocFlags::swarm(rng);
         let d = text::doc(rng, &f);
         if !d.starts_with(BEGIN_MSG) {
